@@ -477,6 +477,18 @@ CloneFromStep(e) ==
        /\ taint' = taint /\ broken' = broken
        /\ nbad' = nbad + Cardinality(bad)
 
+(* a `sync` event: the runner replayed an already validated prefix silently and reports *)
+(* the state it led to; the specification adopts it (only the structure is checked)     *)
+SyncStep(e) ==
+    LET c == e.c  post == PostOf(e.st)
+        bad == {<<"C07", "WellFormed">> : z \in IF ~post.alive \/ WellFormed(e.st) THEN {} ELSE {1}}
+    IN /\ Report(l, bad)
+       /\ cs' = Fn(cs, c, post) /\ last' = Fn(last, c, Remember(e.st))
+       /\ gh' = Fn(gh, c, [GhostInit(0) EXCEPT !.peak = Len(post.ord), !.req = Cap(post), !.virgin = FALSE])
+       /\ stale' = Fn(stale, c, {})
+       /\ taint' = taint /\ broken' = broken
+       /\ nbad' = nbad + Cardinality(bad)
+
 CallStep(e) ==
     LET c == e.c  pre == cs[c]  a == ArgOf(e)  post == PostOf(e.st)
         x == StepOf(pre, a, e, last[c])
@@ -506,6 +518,7 @@ TraceNext ==
     /\ LET e == Rec[l] IN
        IF "reset" \in DOMAIN e THEN ResetStep(e)
        ELSE IF broken THEN UNCHANGED <<cs, last, gh, stale, taint, broken, nbad>>
+       ELSE IF e.a.op = "sync" THEN SyncStep(e)
        ELSE IF e.a.op = "new" THEN NewStep(e)
        ELSE IF e.a.op = "drop" THEN DropStep(e)
        ELSE IF e.a.op = "clone" /\ e.panic.kind = "none" THEN CloneStep(e)
